@@ -104,7 +104,8 @@ def specs(rng, J, P, net=None):
         "create_heat_exchanger": ("heat_exchanger", dict(from_junction=f, to_junction=t, qext_w=float(rng.uniform(-1e4, 1e4)), inner_diameter_mm=80.0),
                                   dict(loss_coefficient=1.5, name="hx", in_service=False)),
         "create_pipe": ("pipe", dict(from_junction=f, to_junction=t, std_type=str(rng.choice(pipe_types)), length_km=0.3),
-                        dict(loss_coefficient=0.5, sections=3, text_k=285.0, name="p", in_service=False, geodata=[(0, 0), (1, 1)])),
+                        dict(loss_coefficient=0.5, sections=3, text_k=285.0, name="p", in_service=False, geodata=[(0, 0), (1, 1)],
+                             k_mm=0.07, u_w_per_m2k=1.25)),
         "create_pipe_from_parameters": ("pipe", dict(from_junction=f, to_junction=t, length_km=0.25, inner_diameter_mm=90.0),
                                         dict(outer_diameter_mm=110.0, k_mm=0.05, loss_coefficient=0.4, sections=2, u_w_per_m2k=1.5, text_k=280.0,
                                              name="pp", in_service=False)),
